@@ -3,6 +3,7 @@
 package l3
 
 import (
+	"bufio"
 	"bytes"
 	"encoding/json"
 	"fmt"
@@ -282,6 +283,45 @@ func (p *Proc) do(port int, method, path string, body []byte, hdr map[string]str
 
 func (p *Proc) Ingress(path string, body []byte, hdr map[string]string) Resp {
 	return p.do(p.Ports.Ingress, "POST", path, body, hdr)
+}
+
+// IngressCutOff announces len(body) bytes and sends only the first sendN of
+// them over a raw connection, then ends its sending side (half-close, waiting
+// for an answer) or drops the connection outright. The upload the sender meant
+// to make never completed; Status is whatever the server answered, if anything.
+func (p *Proc) IngressCutOff(path string, body []byte, sendN int, hdr map[string]string, halfClose bool) Resp {
+	conn, err := net.DialTimeout("tcp", fmt.Sprintf("127.0.0.1:%d", p.Ports.Ingress), 2*time.Second)
+	if err != nil {
+		return Resp{Err: err}
+	}
+	defer conn.Close()
+	var b bytes.Buffer
+	fmt.Fprintf(&b, "POST %s HTTP/1.1\r\nHost: 127.0.0.1\r\nContent-Type: application/octet-stream\r\nContent-Length: %d\r\n", path, len(body))
+	for k, v := range hdr {
+		fmt.Fprintf(&b, "%s: %s\r\n", k, v)
+	}
+	b.WriteString("\r\n")
+	if sendN > len(body) {
+		sendN = len(body)
+	}
+	b.Write(body[:sendN])
+	if _, err := conn.Write(b.Bytes()); err != nil {
+		return Resp{Err: err}
+	}
+	if !halfClose {
+		return Resp{Err: fmt.Errorf("connection dropped by the sender after %d of %d body bytes", sendN, len(body))}
+	}
+	if tc, ok := conn.(*net.TCPConn); ok {
+		_ = tc.CloseWrite()
+	}
+	_ = conn.SetReadDeadline(time.Now().Add(3 * time.Second))
+	resp, err := http.ReadResponse(bufio.NewReader(conn), nil)
+	if err != nil {
+		return Resp{Err: err}
+	}
+	defer resp.Body.Close()
+	rb, berr := io.ReadAll(resp.Body)
+	return Resp{Status: resp.StatusCode, Body: rb, BodyErr: berr}
 }
 
 func (p *Proc) Pull(path string, v any, token string) Resp {
